@@ -81,8 +81,22 @@ def generalise(path):
 
 
 def maximal_case(rng):
-    case = gi.random_case(rng, n_core_rings=2, positions=[(1, 1), (2, 1), (2, 4)], n_types=2, gap_model='flow', length=0.5,
-                          flow_range=(1.0, 5.0))
+    case = gi.random_case(rng, n_core_rings=2, positions=[(1, 1), (2, 1), (2, 2), (2, 3), (2, 4), (2, 5), (2, 6)], n_types=2,
+                          gap_model='flow', length=0.5, flow_range=(1.0, 5.0))
+    # runs of positions written as ONE input line each (ring, first, last): 2,1..2 flow rate; 2,3..4 outlet temperature;
+    # 2,5..6 temperature rise
+    case['merge_assignment'] = True
+    asg = case['assignment']
+    asg[2]['type'] = asg[1]['type']
+    asg[2]['flowrate'] = asg[1]['flowrate']
+    asg[4]['type'] = asg[3]['type']
+    asg[6]['type'] = asg[5]['type']
+    for k in (3, 4):
+        asg[k].pop('flowrate')
+        asg[k]['outlet_temp'] = case['core']['coolant_inlet_temp'] + 120.0
+    for k in (5, 6):
+        asg[k].pop('flowrate')
+        asg[k]['delta_temp'] = 90.0
     case['core']['bypass_fraction'] = 0.05
     t0, t1 = case['types']['t0'], case['types']['t1']
     gi.add_axial_regions(rng, case, 't0')
@@ -97,10 +111,6 @@ def maximal_case(rng):
     case['setup']['axial_mesh_size'] = 0.002
     case['setup']['conv_approx_dz_cutoff'] = 0.0007
     case['setup']['Dump'] = dict(coolant=True, interval=0.05)
-    case['assignment'][1].pop('flowrate')
-    case['assignment'][1]['outlet_temp'] = case['core']['coolant_inlet_temp'] + 120.0
-    case['assignment'][2].pop('flowrate')
-    case['assignment'][2]['delta_temp'] = 90.0
     return case
 
 
